@@ -95,7 +95,7 @@ pub fn verif_map_collect<I: Iterator, U, F: FnMut(I::Item) -> U>(it: I, f: F) ->
 pub fn verif_map_unzip<I: Iterator, U, V, F: FnMut(I::Item) -> (U, V)>(it: I, f: F) -> (r: (Vec<U>, Vec<V>))
     requires forall |k: int| 0 <= k < it.remaining().len() ==> #[trigger] f.requires((it.remaining()[k],)),
     ensures r.0.len() == it.remaining().len(), r.1.len() == it.remaining().len(),
-        forall |k: int| 0 <= k < it.remaining().len() ==> #[trigger] f.ensures((it.remaining()[k],), (r.0[k], r.1[k])),
+        forall |k: int| #![trigger r.0[k]] #![trigger r.1[k]] 0 <= k < it.remaining().len() ==> f.ensures((it.remaining()[k],), (r.0[k], r.1[k])),
 { it.map(f).unzip() }
 
 // A-LIB-ARRAY: definitional contracts of the array constructors used by src/vector.rs
